@@ -1,6 +1,7 @@
 #include "multi_buffergroup.h"
 #include <string>
 #include <iostream>
+#include "verif_hooks.h"
 
 /*################################
   初始化
@@ -21,6 +22,7 @@ return:返回装载状态
 */
 loadstate_t iobuffer::load_buffer(FILE *fin, bool ispadding)
 {
+  WENCRY_VERIF_SCOPE(WV_IO_LOAD, this);
   u32_t load = fread(b, 1, sum, fin);
   bool readover = feof(fin);
   tail = load & 0xf;
@@ -47,6 +49,7 @@ ispadding:是否填充
 */
 void iobuffer::export_buffer(FILE *fout, bool ispadding)
 {
+  WENCRY_VERIF_SCOPE(WV_IO_EXPORT, this);
   if (isfinal)
   {
     u8_t padding = ispadding ? 0 : b[now - 1][15];
@@ -122,6 +125,7 @@ void buffergroup::set_buffergroup(u32_t size, FILE *fin, FILE *fout, bool ispadd
   this->ispadding = ispadding;
   this->buflst = new iobuffer[size];
   this->ctrl = new bufferctrl[size];
+  WENCRY_VERIF_EV(WV_GROUP, this->buflst, this->ctrl, size);
 };
 /*
 get_instance:获取实例
@@ -171,11 +175,13 @@ return:表项地址，若缓冲区已经读取完毕返回NULL
 */
 u8_t *buffergroup::require_buffer_entry(const u8_t id)
 {
+  WENCRY_VERIF_EV(WV_WORKER_LOOK, &buflst[id], &ctrl[id], id);
   u8_t *result = buflst[id].get_entry();
   if (result == NULL)
   {
     ctrl[id].set_update();
     ctrl[id].wait_ready();
+    WENCRY_VERIF_EV(WV_WORKER_RELOOK, &buflst[id], &ctrl[id], id);
     if (ctrl[id].cmpstate(READY))
       result = buflst[id].get_entry();
   }
